@@ -447,9 +447,25 @@ func treeHistory(r *g3lib.Rec, ctx context.Context, rnd *rand.Rand, ncols, nops 
 			}
 			hist = append(hist, "insert "+rg.String())
 			ops = append(ops, histOp{"insert", posPairs(b)})
+			before, _ := snapshot(ctx, doms, 0, tree)
 			if err := tree.Insert(ctx, rg); err != nil {
 				violate("insert:error", map[string]any{"err": err.Error()})
 				return
+			}
+			// insert's own duty, whatever state rotations and removals left behind (known finding): when the new
+			// range became a new leaf and the tree was not restructured, every node it descended through records an
+			// upper bound at least as large as the new one
+			if after, err := snapshot(ctx, doms, 0, tree); err == nil && before != nil && after != nil {
+				if path, pure := pureLeafInsert(before.root, after.root, b.c[0].lo, b.c[0].up); pure {
+					r.Count("tree."+mode+".insert-as-new-leaf-without-restructuring", 1)
+					for _, a := range path {
+						if a.maxUp < b.c[0].up {
+							r.Violation(fmt.Sprintf("tree:insert:ancestor-maxupperbound-below-inserted-upper-bound:n=%d", ncols),
+								map[string]any{"types": domNames(doms), "history": append([]string(nil), hist...), "tree": tree.String(), "ancestor_max_upper": a.maxUp, "inserted_upper": b.c[0].up})
+							return
+						}
+					}
+				}
 			}
 			model[b.key()] = stored{rg, b}
 			r.Count("tree."+mode+".insert", 1)
@@ -481,6 +497,33 @@ func treeHistory(r *g3lib.Rec, ctx context.Context, rnd *rand.Rand, ncols, nops 
 			return
 		}
 	}
+}
+
+// pureLeafInsert reports whether after equals before plus exactly one new leaf (lo, up) at the first level, and
+// returns the nodes of after on the way down to it.
+func pureLeafInsert(before, after *tnode, lo, up int) ([]*tnode, bool) {
+	var path []*tnode
+	found := false
+	var walk func(b, a *tnode, anc []*tnode) bool
+	walk = func(b, a *tnode, anc []*tnode) bool {
+		switch {
+		case b == nil && a == nil:
+			return true
+		case b == nil:
+			if found || a.lo != lo || a.up != up || a.left != nil || a.right != nil {
+				return false
+			}
+			found = true
+			path = append([]*tnode(nil), anc...)
+			return true
+		case a == nil || b.lo != a.lo || b.up != a.up:
+			return false
+		}
+		next := append(append([]*tnode(nil), anc...), a)
+		return walk(b.left, a.left, next) && walk(b.right, a.right, next)
+	}
+	ok := walk(before, after, nil)
+	return path, ok && found
 }
 
 func sortStrings(s []string) {
